@@ -798,6 +798,22 @@ example : Ordered 0 9 exRun :=
 /-- the empty text `(6,6)` is the first node of the last run, so the hull starts there: `(6,9)` -/
 example : C14.summary (fragmentsJoin exRun) = "T:a**b:0-4;N::4-6;T:c:6-9" := by decide +kernel
 
+/-- non-vacuity of `join_run` / `hull_range` / `hull_content`: the run `a`, `**` (unmatched marker), `b` -/
+example :
+    (∀ x ∈ [C14.exText "a" 0 1, C14.exMarker '*' 2 1 3, C14.exText "b" 3 4],
+      x.isText = true ∨ C14.isMarker x = true) ∧
+    (hull (markerToText (C14.exText "a" 0 1))
+      (pass1 [C14.exMarker '*' 2 1 3, C14.exText "b" 3 4])).range = some (0, 4) ∧
+    (hull (markerToText (C14.exText "a" 0 1))
+      (pass1 [C14.exMarker '*' 2 1 3, C14.exText "b" 3 4])).content = ['a', '*', '*', 'b'] := by
+  refine ⟨?_, by decide +kernel, by decide +kernel⟩
+  intro x hx
+  simp only [List.mem_cons, List.mem_nil_iff, or_false] at hx
+  rcases hx with rfl | rfl | rfl <;> decide
+
+/-- non-vacuity of `join_split`: the opaque node of `exRun` -/
+example : (INode.newOther 5 (some (4, 6))).kind = .other 5 := rfl
+
 /-! ## one match step of `scan_and_match_delimiters` -/
 
 /-- **C05 / emph_wrap_range.**  Opener marker range `(os, oe)`, closer marker range `(cs, ce)`, both
